@@ -825,6 +825,22 @@ pub fn gen_module(t: &mut Tape, cfg: &GenCfg) -> GModule {
         }
         m.groups.push(GRecGroup { explicit: true, len: n });
     }
+    if p.gc && !exec && t.chance(1, 3) {
+        // open (non-final) function types, the later ones declared as subtypes of an earlier
+        // one with the same signature: the same signature then exists several times, but never
+        // as a plain final declaration of its own
+        let (pa, re) = t.pick(&sig_pool).clone();
+        let n = t.range(1, 3);
+        let mut prev: Option<u32> = None;
+        for _ in 0..n {
+            let idx = m.types.len() as u32;
+            func_type_idxs.push(idx);
+            m.types.push(GType { comp: GComposite::Func { params: pa.clone(), results: re.clone() }, supertype: if t.bool() { prev } else { None }, is_final: false });
+            m.groups.push(GRecGroup { explicit: false, len: 1 });
+            prev = Some(idx);
+        }
+        feats.insert("gc");
+    }
     let void_ty = func_type_idxs[0];
     let log_ty = if cfg.host_log { func_type_idxs[1] } else { 0 };
 
